@@ -164,6 +164,12 @@ void Ctx::emitTypeDecls(raw_ostream& os)
         os << ");\n";
     };
     for (size_t i = 0; i < fnTys.size(); ++i) emitFT(fnTys[i]);
+    // pointer-buffer stand-ins for flagged byte arrays
+    {
+        std::set<uint64_t> sizes;
+        for (auto& pb : ptrBuf) sizes.insert(pb.first->getElementType(pb.second)->getArrayNumElements());
+        for (uint64_t n : sizes) os << "struct PB" << n << " { u8* a[" << n / 8 << "]; };\n";
+    }
     // struct / array definitions
     std::set<Type*> doneS;
     std::function<void(Type*)> emitS = [&](Type* T) {
@@ -175,7 +181,13 @@ void Ctx::emitTypeDecls(raw_ostream& os)
             for (Type* E : S->elements()) emitS(E);
             os << tyNames[T] << " {";
             unsigned k = 0;
-            for (Type* E : S->elements()) os << " " << ty(E) << " f" << k++ << ";";
+            for (Type* E : S->elements())
+            {
+                if (isPtrBuf(S, k)) os << " struct PB" << E->getArrayNumElements() << " f" << k << ";";
+                else
+                    os << " " << ty(E) << " f" << k << ";";
+                ++k;
+            }
             os << " }" << (S->isPacked() ? " __attribute__((packed))" : "") << ";\n";
             if (S->isSized())
             {
@@ -294,6 +306,36 @@ std::string Ctx::cexpr(Constant* C)
     die("unsupported constant " + o.str());
 }
 
+void Ctx::computePtrBufs()
+{
+    if (ptrBufOwners.empty()) return;
+    auto flagInner = [&](StructType* U) {
+        // a union-like member: a struct with exactly one element, a byte array of 16..64 bytes, multiple of 8
+        if (U->isOpaque() || U->getNumElements() != 1) return;
+        auto* A = dyn_cast<ArrayType>(U->getElementType(0));
+        if (!A || !A->getElementType()->isIntegerTy(8)) return;
+        uint64_t n = A->getNumElements();
+        if (n < 16 || n > 64 || n % 8) return;
+        ptrBuf.insert({U, 0u});
+    };
+    for (StructType* S : M.getIdentifiedStructTypes())
+    {
+        if (S->isOpaque() || !S->hasName()) continue;
+        bool owner = false;
+        for (auto& o : ptrBufOwners)
+            if (S->getName().contains(o)) owner = true;
+        if (!owner) continue;
+        for (unsigned k = 0; k < S->getNumElements(); ++k)
+        {
+            Type* E = S->getElementType(k);
+            if (auto* U = dyn_cast<StructType>(E)) flagInner(U);
+            else if (auto* A = dyn_cast<ArrayType>(E); A && A->getElementType()->isIntegerTy(8) && A->getNumElements() >= 16 && A->getNumElements() <= 64 &&
+                     A->getNumElements() % 8 == 0)
+                ptrBuf.insert({S, k});
+        }
+    }
+}
+
 std::string Ctx::gepExpr(GEPOperator* G, std::function<std::string(Value*)> val)
 {
     Type* cur = G->getSourceElementType();
@@ -316,6 +358,18 @@ std::string Ctx::gepExpr(GEPOperator* G, std::function<std::string(Value*)> val)
             unsigned k = cast<ConstantInt>(*it)->getZExtValue();
             L += ".f" + std::to_string(k);
             cur = S->getElementType(k);
+            if (isPtrBuf(S, k))
+            {
+                // the field is emitted as an array of pointers: a byte index becomes a pointer-slot index (or byte arithmetic)
+                ++it;
+                if (it == G->idx_end()) return "((" + ty(cur) + "*)(&" + L + "))";    // pointer to the whole byte array
+                Value* BI = *it;
+                ++it;
+                if (it != G->idx_end()) die("GEP below a byte of a pointer buffer");
+                if (auto* CI = dyn_cast<ConstantInt>(BI); CI && CI->getSExtValue() >= 0 && CI->getSExtValue() % 8 == 0)
+                    return "((u8*)(&" + L + ".a[" + std::to_string(CI->getSExtValue() / 8) + "]))";
+                return "(((u8*)(&" + L + ".a[0])) + (" + idxStr(BI) + "))";
+            }
         }
         else if (cur->isArrayTy())
         {
